@@ -9,7 +9,9 @@ import (
 	"runtime"
 	"runtime/debug"
 	"strconv"
+	"strings"
 	"sync"
+	"time"
 
 	"github.com/flant/shell-operator/pkg/utils/verifhook"
 )
@@ -25,6 +27,9 @@ type Actor struct {
 	Keys    []string
 	Panic   string
 	Steps   int
+	// IsBlocked: the actor was found waiting for a mutex; its next event has not been collected yet.
+	IsBlocked bool
+	gid       int64
 }
 
 type S struct {
@@ -73,6 +78,9 @@ func (s *S) lookup() *Actor {
 	return a
 }
 
+// Self returns the actor running on the calling goroutine (nil for any other goroutine).
+func (s *S) Self() *Actor { return s.lookup() }
+
 // Yield implements verifhook.Hook: only actors park; any other goroutine passes through.
 func (s *S) Yield(point string, keys ...string) {
 	a := s.lookup()
@@ -89,7 +97,178 @@ func (s *S) Skip(point string) bool {
 	return point == "ri.start" || point == "nsi.start"
 }
 
+// Status of an actor after a step.
+type Status int
+
+const (
+	Parked  Status = iota // at a yield point
+	Done                  // returned
+	Blocked               // waiting for a mutex held by a parked actor; it will arrive later (Poll)
+)
+
+// goroutineWait returns the wait reason of a goroutine ("" when it is running/runnable or unknown).
+func goroutineWait(id int64) string {
+	buf := make([]byte, 1<<16)
+	for {
+		n := runtime.Stack(buf, true)
+		if n < len(buf) {
+			buf = buf[:n]
+			break
+		}
+		buf = make([]byte, 2*len(buf))
+	}
+	needle := []byte("goroutine " + strconv.FormatInt(id, 10) + " [")
+	i := bytes.Index(buf, needle)
+	if i < 0 {
+		return ""
+	}
+	rest := buf[i+len(needle):]
+	j := bytes.IndexByte(rest, ']')
+	if j < 0 {
+		return ""
+	}
+	return string(rest[:j])
+}
+
+func isMutexWait(reason string) bool {
+	return strings.HasPrefix(reason, "sync.Mutex.Lock") || strings.HasPrefix(reason, "sync.RWMutex.") || strings.HasPrefix(reason, "semacquire")
+}
+
+// StepB is Step with detection of an actor that blocks on a mutex held by a parked actor.
+func (s *S) StepB(a *Actor) Status {
+	if a.Done {
+		return Done
+	}
+	if a.IsBlocked {
+		return s.Poll(a)
+	}
+	s.begin(a)
+	a.resume <- struct{}{}
+	return s.await(a)
+}
+
+var DebugStats struct {
+	AwaitSlow, AwaitBlocked, WaitUnb int
+	SlowReasons                   map[string]int
+}
+
+func (s *S) await(a *Actor) Status {
+	wait := 200 * time.Microsecond
+	for {
+		select {
+		case parked := <-a.event:
+			a.IsBlocked = false
+			if parked {
+				return Parked
+			}
+			return Done
+		case <-time.After(wait):
+			r := goroutineWait(a.gid)
+			if DebugStats.SlowReasons == nil {
+				DebugStats.SlowReasons = map[string]int{}
+			}
+			DebugStats.SlowReasons[r]++
+			if isMutexWait(r) {
+				a.IsBlocked = true
+				DebugStats.AwaitBlocked++
+				return Blocked
+			}
+			DebugStats.AwaitSlow++
+			if wait < 20*time.Millisecond {
+				wait *= 2
+			}
+		}
+	}
+}
+
+// Poll checks whether a blocked actor has arrived at its next yield point (or finished) meanwhile.
+func (s *S) Poll(a *Actor) Status {
+	if !a.IsBlocked {
+		if a.Done {
+			return Done
+		}
+		return Parked
+	}
+	select {
+	case parked := <-a.event:
+		a.IsBlocked = false
+		if parked {
+			return Parked
+		}
+		return Done
+	default:
+		return Blocked
+	}
+}
+
+// Settle waits until a blocked actor has either arrived at its next point or is verifiably still waiting
+// for a mutex (so that the state after every step does not depend on goroutine timing).
+func (s *S) Settle(a *Actor) Status {
+	for i := 0; ; i++ {
+		if st := s.Poll(a); st != Blocked {
+			return st
+		}
+		if isMutexWait(goroutineWait(a.gid)) {
+			// double check: it may have been released in between
+			if st := s.Poll(a); st != Blocked {
+				return st
+			}
+			return Blocked
+		}
+		if i > 20000 {
+			return Blocked
+		}
+		time.Sleep(10 * time.Microsecond)
+	}
+}
+
+// WaitUnblocked waits (bounded) until a blocked actor arrives; used when nothing else can run.
+func (s *S) WaitUnblocked(a *Actor, d time.Duration) Status {
+	DebugStats.WaitUnb++
+	select {
+	case parked := <-a.event:
+		a.IsBlocked = false
+		if parked {
+			return Parked
+		}
+		return Done
+	case <-time.After(d):
+		return Blocked
+	}
+}
+
+func (s *S) begin(a *Actor) {
+	a.Steps++
+	if a.Started {
+		return
+	}
+	a.Started = true
+	ready := make(chan struct{})
+	go func() {
+		g := gid()
+		a.gid = g
+		s.mu.Lock()
+		s.byGid[g] = a
+		s.mu.Unlock()
+		close(ready)
+		defer func() {
+			if r := recover(); r != nil {
+				a.Panic = fmt.Sprintf("%v\n%s", r, debug.Stack())
+			}
+			s.mu.Lock()
+			delete(s.byGid, g)
+			s.mu.Unlock()
+			a.Done = true
+			a.event <- false
+		}()
+		<-a.resume
+		a.fn()
+	}()
+	<-ready
+}
+
 // Step runs the actor until it parks or finishes. It returns true while the actor is still alive.
+// It must only be used when no yield point lies inside a critical section.
 func (s *S) Step(a *Actor) bool {
 	if a.Done {
 		return false
